@@ -7,55 +7,55 @@ E1="E1 lock-step model monitor"; E2="E2 controlled-schedule monitor"; E3="E3 par
 def e1(text, note="Single goroutine histories; trusts the reference model (harness/cmd/vcheck/model.go) and the generator's model boundaries (DESIGN.md 3.3)."):
     return dict(engine=E1, cat="exploration", technique="runtime monitoring: seeded histories executed on the real collection in lock-step with an executable reference model; full-state dump through the public API compared after every step", text=text, note=note)
 CHECKS = {
- "C01": dict(e1("Held on every dump of every seeded history: all cells of all live rows (16 column kinds, up to 3 blocks, 8 capacities, columns created over data) read back bit/byte-exact through Row readers, Txn readers and Row.Any."), ref="DESIGN.md 4/C01"),
- "C02": dict(e1("Held on every rolled-back transaction of the histories (full dump identical, nothing logged, twin collection hands out identical insert offsets), on every own-read inside a transaction and on every in-flight observation from a second goroutine (dump and snapshot+restore), except the recorded finding KF-INFLIGHT-INSERT."), ref="DESIGN.md 4/C02"),
+ "C01": dict(e1("Held on every dump of every seeded history: all cells of all live rows (16 column kinds, up to 3 blocks, 8 capacities, columns created over data) read back bit/byte-exact through Row readers, Txn readers and Row.Any; columns are dropped and re-created under the same name, transactions include filter-chain DeleteAll, the enum alphabet holds colliding pairs and probe chains."), ref="DESIGN.md 4/C01"),
+ "C02": dict(e1("Held on every rolled-back transaction of the histories (full dump identical, nothing logged, twin collection hands out identical insert offsets), on every own-read inside a transaction and on every in-flight observation from a second goroutine (dump and snapshot+restore), except the recorded finding KF-INFLIGHT-INSERT; E3 phases: torn-row rounds (no reader callback sees half a commit) and snapshot loops beside tag writers (no restored row holds half a transaction)."), ref="DESIGN.md 4/C02"),
  "C03": dict(e1("Held on every dump: With(index) and Row.Bool(index) equal the predicate evaluated over the values read through the typed readers, on primaries, stream replicas and restored collections, for indexes created before/after the data and dropped at random; an E3 phase builds indexes while six writers commit and compares every index bit with the predicate at quiescence.", note="Histories are single goroutine, the E3 phase is real parallelism; trusts the reference model and the generator's model boundaries (DESIGN.md 3.3)."), ref="DESIGN.md 4/C03"),
- "C04": dict(e1("Held on every generated filter chain and aggregate: Count/Range/Sum/Avg/Min/Max equal set algebra and direct aggregation over the dumped rows and values."), ref="DESIGN.md 4/C04"),
+ "C04": dict(e1("Held on every generated filter chain and aggregate: Count/Range/Sum/Avg/Min/Max equal set algebra and direct aggregation over the dumped rows and values; columns are created over sparse multi-block data, indexes are compared with their predicates after every step, DeleteAll behind a chain deletes exactly the rows Range visits."), ref="DESIGN.md 4/C04"),
  "C05": dict(engine="E4 codec round-trip monitor", cat="exploration", ref="DESIGN.md 4/C05",
    technique="runtime monitoring: generated op sequences executed on the real commit.Buffer/Reader/Commit/Log (checkptr build), decoded output compared with the generated list",
    text="Every op sequence up to length 3 (4 in thorough) over a reduced alphabet and up to 2 (3) over the full alphabet of kind x width x offset-move is executed exhaustively, plus seeded long random sequences with interleaved blocks and Log round trips; held = every decode path returned the generated sequence (except the recorded finding KF-VARLEN-MERGE-REORDER, attributed from the generated sequence).",
    note="Trusts the harness's own expectation builder (the generated list is the oracle). Offsets < 2^31, values <= 65535 bytes. SwapBool and different-length Swap on a Seek reader are outside what the library itself does and are not exercised."),
  "C06": dict(engine=E2+" + "+E1, cat="exploration", ref="DESIGN.md 4/C06",
    technique="runtime monitoring: controlled scheduling of real writers at instrumentation hooks (enumerated interleavings) + lock-step histories; replicas fed the real commit.Channel / commit.Log compared by full-state dump",
-   text="Held on every enumerated interleaving of the scripted multi-writer scenarios and on every seeded single-writer history: replicas fed the emitted commits (channel clone and serialized log) equal the primary at quiescence.",
+   text="Held on every enumerated interleaving of the scripted multi-writer scenarios and on every seeded single-writer history: replicas fed the emitted commits (channel clone and serialized log) equal the primary at quiescence; histories run with other clients committing between the operations of a transaction; directed probes force a cross-block key take-over; marker commits of different blocks are overlapped (forced from a trigger callback and free-running) and Count() of primary and replica compared with the rows visited.",
    note="E2 parks tasks only at lock-free hook points; trusts the dump comparison and that emission order = order of Append calls."),
- "C07": dict(e1("Held on every snapshot->restore cycle of the histories: dump(restored) == dump(original) incl. indexes, sorted order, key lookups and counts, for same and different capacity, and the history continues on the restored collection under the value/live/key oracles."), ref="DESIGN.md 4/C07"),
+ "C07": dict(e1("Held on every snapshot->restore cycle of the histories: dump(restored) == dump(original) incl. indexes, sorted order, key lookups and counts, for same and different capacity, and the history continues on the restored collection under the value/live/key oracles; a sweep restores states of exactly 1 MiB + t uncompressed bytes for every t over the non-filler part, so the s2 block boundary (short read) falls on every byte of every field."), ref="DESIGN.md 4/C07"),
  "C08": dict(engine=E2+" + "+E3, cat="exploration", ref="DESIGN.md 4/C08",
    technique="runtime monitoring: controlled scheduling of a real Snapshot beside real writers at the hooks of both protocols, and snapshot loops beside parallel writers; restored state checked per block against the fold of the recorded apply order (prefix-state oracle)",
    text="Held on every executed interleaving: each restored block equals a prefix state S_b[k] with k between the acknowledged-before-call and applied-before-return bounds; Snapshot never failed; only the recorded finding KF-INFLIGHT-INSERT was tolerated by exact signature.",
    note="E2 parks tasks only at lock-free hook points; apply order per block is taken from the logger (called inside the latch)."),
  "C09": dict(engine=E2+" + "+E3, cat="exploration", ref="DESIGN.md 4/C09",
    technique="runtime monitoring: controlled scheduling of concurrent merging writers; final values compared with the fold of the deltas in the recorded per-block apply order; replicas checked for the rewritten absolute values; under real parallelism, recorded per-row histories of merge/put/read checked for linearizability (porcupine) and the fold oracle over thousands of commits",
-   text="Held on every executed interleaving: additive, order-sensitive (v*3+d) and concatenating merges end at the fold of all committed deltas in apply order, each exactly once.",
+   text="Held on every executed interleaving: additive, order-sensitive (v*3+d) and concatenating merges end at the fold of all committed deltas in apply order, each exactly once; every committed transaction has a commit applied in every block it changed (incl. blocks visited in descending order); groups of six transactions merging into one cell of a block that does not exist yet lose no delta.",
    note="E2 parks tasks only at lock-free hook points."),
  "C10": dict(engine=E3, cat="exploration", ref="DESIGN.md 4/C10",
    technique="runtime monitoring under real parallelism (race-detector build and plain build, micro-delays injected at commit hooks incl. inside the latch): per-row multi-column tag invariant asserted inside reader callbacks",
-   text="Held on every reader callback of every round (millions per run, about half of them overlapping a commit on the same block as counted at the hooks): the six redundant columns of the row always carried one committed tag, never a rolled-back one.",
+   text="Held on every reader callback of every round (millions per run, about half of them overlapping a commit on the same block as counted at the hooks): the seven redundant columns of the row (one stored through a merge function returning part of its delta) always carried one committed tag, never a rolled-back one; in the growth phase every large transaction on exclusively owned rows read back complete (eight bool columns, eight indexes) while the collection grew from 1 to 14 blocks.",
    note="Schedules are whatever 16 cores and the injected delays produce; nothing is enumerated."),
  "C11": dict(e1("Held on every insert of every history (offset free in the model and not reserved in the same transaction), on every dump (Range/Count/Txn.Count equal the live set; cells of reused offsets carry only what the insert stored), except the recorded finding KF-WRITE-THEN-DELETE-ORPHAN (directed probe); an E3 phase runs 16 inserting/deleting workers with an ownership table (collision = occupied entry), read-back of own rows and a census at quiescence.", note="Histories are single goroutine (with interloper transactions between operations), the E3 phase is real parallelism; trusts the reference model and the generator's model boundaries (DESIGN.md 3.3)."), ref="DESIGN.md 4/C11"),
  "C12": dict(e1("Held on every key operation (return value vs the model's key table at issue time) and every dump grouped by key; two-transaction creating races are enumerated under the controlled scheduler at the key.afterCheck hook - the recorded finding KF-KEY-CHECK-THEN-ACT is attributed only when two creating operations both succeeded; an E3 phase runs 12 workers on disjoint key sets against one key table and checks every return value against the worker's own map.", note="Histories are single goroutine, E2/E3 phases add schedules; trusts the reference model and the generator's model boundaries (DESIGN.md 3.3)."), ref="DESIGN.md 4/C12"),
  "C13": dict(engine="E5 crash-point enumerator", cat="fault_enumeration", ref="DESIGN.md 4/C13",
    technique="runtime fault enumeration: every truncation offset (thorough) / all frame and commit boundaries +-2 plus seeded offsets (quick) of real snapshot and log streams restored by the real code under recover() and a watchdog; result compared with explicitly constructed allowed states",
-   text="Held on every prefix tried: error or a state at a commit boundary (complete state part + prefix of logged commits) / whole blocks of the state part; no panic, no hang, no partial commit delivered by Log.Range.",
-   note="Reference states E_j are built by the same Restore from well-formed input and anchored against the primary's dump."),
+   text="Held on every prefix tried: error or a state at a commit boundary (complete state part + prefix of logged commits) / whole blocks of the state part; no panic, no hang, no partial commit delivered by Log.Range; every commit boundary state is anchored per block against the model (block as read + the recorded commits applied to it afterwards), incl. sources that grow into a new block before / after the state is written.",
+   note="Reference states E_j are built by the same Restore from well-formed input; E_0, every E_j and E_m are anchored against the model / the primary's dump."),
  "C14": dict(engine="E6 writer-fault injector", cat="fault_enumeration", ref="DESIGN.md 4/C14",
    technique="runtime fault injection at the destination io.Writer (every byte budget / call index / once / forever), with follow-up commit, healthy snapshot+restore vs model, two-column transactions read back after every fault, and fd/temp-file census with GC disabled",
-   text="Held on every injected fault: error reported iff the destination failed, the collection kept committing, a later healthy snapshot restored to the model, no descriptor or temp file accumulated.",
+   text="Held on every injected fault: error reported iff the destination failed, the collection kept committing, a later healthy snapshot restored to the model, no descriptor or temp file accumulated; the fault-free dry run round-trips and no Snapshot returned nil without handing over a byte.",
    note="Faults are injected at the writer passed to Snapshot only; GOMAXPROCS=1 workers plus a GOMAXPROCS=4 slice."),
  "C15": dict(engine=E2+" + "+E1, cat="exploration", ref="DESIGN.md 4/C15",
    technique="runtime monitoring: recording commit.Logger (invoked inside the block latch) under enumerated interleavings (with and without a snapshot in progress), parallel stream rounds with snapshots, and seeded histories; exactly-once / ordering / identity oracle over the recorded event log, also through the real commit.Channel",
-   text="Held on every executed interleaving and history: one commit per changed block per committed transaction, none for rolled-back/no-op ones, IDs non-zero, distinct and increasing per block in arrival order; the channel delivers the same (ID, block) sequence.",
+   text="Held on every executed interleaving and history: one commit per changed block per committed transaction, none for rolled-back/no-op ones, IDs non-zero, distinct and increasing per block in arrival order; the channel delivers the same (ID, block) sequence; also with a logger that fails on every 2nd-4th append (after recording it).",
    note="E2 parks tasks only at lock-free hook points."),
  "C16": dict(e1("Held on every dump and every filtered Ascend: the callback sequence is a permutation of the selected rows holding a value, in non-decreasing order of the values read at the callbacks (6-string alphabet forcing duplicates)."), ref="DESIGN.md 4/C16"),
  "C17": dict(engine="E7 TTL monitor", cat="exploration", ref="DESIGN.md 4/C17",
    technique="runtime monitoring of the real cleanup goroutine (1/5/20 ms intervals) beside writers: clock-free safety oracle for rows that must live, liveness bounded in vacuum passes counted at a hook, exact deadline comparison after restore/replay; block-boundary phase with an insert held open in a new block and the overlapping cleanup commit held at a hook until the insert committed",
-   text="Held on every observation of every case: rows without TTL or with far deadlines were always present, short-lived rows were never removed ahead of their deadline and were gone within 5 passes that started after it, deadlines were stored exactly and survived snapshot/restore and stream replay.",
+   text="Held on every observation of every case: rows without TTL or with far deadlines were always present, short-lived rows were never removed ahead of their deadline and were gone within 5 passes that started after it, deadlines were stored exactly and survived snapshot/restore and stream replay (replica fed progressively and compared after each of 150 groups of four concurrent extensions per case); a row inserted as the first of a new block beside the cleanup stayed.",
    note="Wall clock assumed not to step backwards by more than 20 ms; verdicts on rows whose deadline was moved close to the old one are withheld."),
  "C18": dict(engine=E3, cat="exploration", ref="DESIGN.md 4/C18",
    technique="Go race detector (halt_on_error=0, log_path) over eight repeated parallel workload mixes with injected delays; reports de-duplicated by function pair and classified by exact stack signature; watchdog + goroutine-dump classification for termination",
    text="Held = no race report other than the recorded finding KF-RACE-GROW (matched by stack signature) and every round terminated; E2's serialized schedules (C06/C08/C09/C15/C12 checks) double as deadlock probes.",
    note="The race detector reports only races that the executed schedules make observable."),
- "C19": dict(e1("Held on every transaction of the histories: per row the trigger callback log equals the model's committed stores (after merge) and row deletions, nothing for rolled-back transactions or dropped triggers; recorded finding KF-VARLEN-MERGE-REORDER via directed probe."), ref="DESIGN.md 4/C19"),
+ "C19": dict(e1("Held on every transaction of the histories: per row the trigger callback log equals the model's committed stores (after merge) and row deletions, nothing for rolled-back transactions or dropped triggers; an E3 phase drops triggers beside commits (one forced mid-commit) and creates/drops a trigger while a transaction is open; recorded finding KF-VARLEN-MERGE-REORDER via directed probe."), ref="DESIGN.md 4/C19"),
 }
 NOT_BUILT = {}
 
